@@ -166,10 +166,17 @@ def runSem (j : Json) : Json :=
           Json.mkObj [("iterate", Json.arr results.toArray)]
       -- verified validator for the scalar fragment (theorem Facto.scalar_end_to_end)
       let roots : List (Nat × Bind) := core.named.toList.filterMap (fun nm =>
-        if nm.isBundle then none else
         let r := jgetD c.names nm.name
         let src := jstrD r "src"
-        match idxOfId c.ids src, (core.nodes.getD nm.node (.const "" 0)).ty? with
+        if nm.isBundle then
+          match idxOfId c.ids src with
+          | some i => some (nm.node, Bind.many [i])
+          | none => none
+        else
+        match core.nodes.getD nm.node (.const "" 0) with
+        | .select .. => none         -- bound from its bundle
+        | nd =>
+        match idxOfId c.ids src, nd.ty? with
         | some i, some ty => some (nm.node, Bind.ent i (ren ty))
         | _, _ => none)
       let bindArr := inferBindings c.circ core.nodes roots
@@ -181,7 +188,14 @@ def runSem (j : Json) : Json :=
       let matchJson := Json.mkObj <| [("ranked", Json.bool ranked), ("all", Json.bool failing.isEmpty),
         ("failing_nodes", Json.arr (failing.map (fun n => Json.mkObj [("node", toJson n),
             ("kind", Json.str ((toString (repr (core.nodes.getD n (.const "" 0)))).take 60).toString)])).toArray),
-        ("bound", nBound), ("roots", roots.length), ("nodes", core.nodes.size)] ++
+        ("bound", nBound), ("roots", roots.length), ("nodes", core.nodes.size),
+        ("proved_names", Json.arr (if ranked && failing.isEmpty then
+            (core.named.toList.filterMap (fun nm =>
+              match bindF nm.node with
+              | some (.ent _ _) => some (Json.str nm.name)
+              | some (.sum _ _) => some (Json.str nm.name)
+              | some (.many _) => some (Json.str nm.name)
+              | _ => none)).toArray else #[]))] ++
         (if (jgetD j "dump").getBool?.toOption.getD false then
           [("dump", Json.mkObj [
             ("kinds", Json.arr (c.circ.kinds.map (fun k => Json.str (toString (repr k))))),
